@@ -199,10 +199,21 @@ def run_impl(case):
     def dress(m):
         return {(np.int64(k) if np_keys else k): (np.bool_(v) if np_flags else v) for k, v in m.items()}
     caller = None if mask is None else dress(mask)
+    f_arr, z_arr = np.array(fs, dtype=float), np.array(zs, dtype=complex)
     try:
-        d = DataSet(np.array(fs, dtype=float), np.array(zs, dtype=complex), mask=caller)
+        d = DataSet(f_arr, z_arr, mask=caller)
     except Exception as e:
         return {"ok": False, "caller_mask": caller, "first": None, "steps": [], "exc": type(e).__name__}
+    # a dictionary returned by get_mask() is a copy: writing into it does not reach the data set  (whether the data set shares the
+    # ARRAYS it was constructed from with its caller is not part of the property: the unchanged library does share them)
+    if len(EXPORTS) < 5:
+        v0 = light_views(d)
+        m_ = d.get_mask()
+        for k_ in list(m_):
+            m_[k_] = not m_[k_]
+        m_[10 ** 6] = True
+        if light_views(d) != v0:
+            EXPORTS.append((case, "writing into the dictionary returned by get_mask() changed the data set"))
     tr = {"ok": True, "caller_mask": caller, "first": observe(d), "steps": [], "exc": None, "step_exc": []}
     kept = []
     for op in ops:
@@ -229,8 +240,14 @@ def run_impl(case):
                 d.subtract_impedances(np.array([op[1]], dtype=complex))
                 tr["steps"].append(observe(d))
             elif t == "sub_vector":
-                d.subtract_impedances(np.array(op[1], dtype=complex))
+                sub_arr = np.array(op[1], dtype=complex)
+                d.subtract_impedances(sub_arr)
                 tr["steps"].append(observe(d))
+                if len(EXPORTS) < 5:
+                    v1 = light_views(d)
+                    sub_arr[:] = 1e9
+                    if light_views(d) != v1:
+                        EXPORTS.append((case, "changing the array handed to subtract_impedances afterwards changed the data set"))
             elif t == "roundtrip":
                 j = json.loads(json.dumps(d.to_dict()))
                 if op[1]:
@@ -265,8 +282,15 @@ def run_impl(case):
                 d = d1
                 tr["steps"].append(observe(d, True, second))
             elif t == "duplicate":
+                d_old = d
                 d = DataSet.duplicate(d)
                 tr["steps"].append(observe(d))
+                if len(EXPORTS) < 5:
+                    v_old, v_new = light_views(d_old), light_views(d)
+                    d_old.set_mask({0: not d_old.get_mask().get(0, False)})
+                    d_old.subtract_impedances(np.array([1.0 + 1.0j]))
+                    if light_views(d) != v_new:
+                        EXPORTS.append((case, "a duplicate changed when its original was masked / shifted afterwards"))
         except Exception as e:
             exc = type(e).__name__
             tr["steps"].append(observe(d, False, t != "roundtrip"))
